@@ -153,3 +153,25 @@ def header_is_canonical(o):
         return new_length(decode_new_value(o[1:])) == o[1:1 + decode_new_size(o[1:])]
     w = header_lenwidth(o[0])
     return w > 0
+
+
+# ---- 4.2.2.4 partial body lengths: a chain of partial chunks ended by a non-partial length (reference decoder, native only)
+def partial_chain(o):
+    """o: octets after the tag octet of a new-format packet. -> (total body length, body octets, octets consumed)"""
+    pos = 0
+    total = 0
+    body = b''
+    while True:
+        fo = o[pos]
+        if is_partial(fo):
+            n = partial_size(fo)
+            body += bytes(o[pos + 1:pos + 1 + n])
+            total += n
+            pos += 1 + n
+        else:
+            n = decode_new_value(o[pos:])
+            sz = decode_new_size(o[pos:])
+            body += bytes(o[pos + sz:pos + sz + n])
+            total += n
+            pos += sz + n
+            return total, body, pos
